@@ -121,6 +121,21 @@ func (h *HttpServer) SetCompressionLevel(level int) error {
 	return nil
 }
 
+// decodedBodyTooLargeError reports a body whose decoded size overran the
+// decoder's output cap. It deliberately says nothing about *which* server
+// setting the cap came from: decompressBounded is handed a bare number (and
+// also serves DecodeContentEncoding, where the cap is the caller's own).
+// readHTTPBody, which knows the cap's origin, turns it into a
+// requestBodyTooLargeError (HTTP 413) only when that origin is the advertised
+// max_request_bytes; on its own it maps to a plain 400.
+type decodedBodyTooLargeError struct {
+	Limit int64
+}
+
+func (e *decodedBodyTooLargeError) Error() string {
+	return fmt.Sprintf("Decompressed body exceeds maximum size of %d bytes", e.Limit)
+}
+
 // decompressBounded decompresses data with the named coding ("zstd" or
 // "gzip"), enforcing maxOutput as a decompressed-size cap when > 0. The
 // gzip ISIZE footer carries the size mod 2^32 — never trust it for a bomb
@@ -134,7 +149,7 @@ func decompressBounded(encoding string, data []byte, maxOutput int64) ([]byte, e
 			var header zstd.Header
 			if err := header.Decode(data); err == nil && header.HasFCS &&
 				header.FrameContentSize > uint64(maxOutput) {
-				return nil, &requestBodyTooLargeError{Limit: maxOutput}
+				return nil, &decodedBodyTooLargeError{Limit: maxOutput}
 			}
 		}
 		opts := []zstd.DOption{}
@@ -169,7 +184,7 @@ func decompressBounded(encoding string, data []byte, maxOutput int64) ([]byte, e
 		return nil, fmt.Errorf("%s decompression: %w", encoding, err)
 	}
 	if maxOutput > 0 && int64(len(out)) > maxOutput {
-		return nil, &requestBodyTooLargeError{Limit: maxOutput}
+		return nil, &decodedBodyTooLargeError{Limit: maxOutput}
 	}
 	return out, nil
 }
